@@ -316,6 +316,7 @@ fn check_aranges(ch: &mut Choices, cx: &mut Ctx) -> R {
     let nsets = 1 + ch.below(3);
     let mut w = W::new(big);
     let mut model: Vec<(bool, u8, u64, Vec<(u64, u64)>)> = Vec::new();
+    let mut starts: Vec<usize> = Vec::new();
     for _ in 0..nsets {
         let format64 = ch.chance(100);
         let a = ch.pick(&[8u8, 4, 2, 1]);
@@ -332,6 +333,7 @@ fn check_aranges(ch: &mut Choices, cx: &mut Ctx) -> R {
             });
         }
         let start = w.len();
+        starts.push(start);
         let tok = w.begin_length(format64);
         w.u16(2).word(info_off, format64).u8(a).u8(0);
         // the first tuple is aligned to twice the address size, measured from the start of the set
@@ -349,18 +351,26 @@ fn check_aranges(ch: &mut Choices, cx: &mut Ctx) -> R {
     }
     cx.sample_with(|| format!("{} aranges sets {:x?}", if big { "BE" } else { "LE" }, model));
     let sec = gimli::DebugAranges::new(&w.buf, endian);
+    crate::std_iter_agrees!(sec.headers(), |h: &gimli::ArangeHeader<EndianSlice<RunTimeEndian>>| format!("{:?}", h.offset()), "c17/aranges/headers-std-iterator");
     let mut hs = sec.headers();
     for (si, (format64, a, info_off, tuples)) in model.iter().enumerate() {
         let h = match hs.next() {
             Ok(Some(h)) => h,
             other => fail!("c17/aranges/header", "set {}: {:?}", si, other.map(|o| o.is_some())),
         };
+        ensure_eq!(h.offset().0, starts[si], "c17/aranges/offset", "set {}", si);
+        // the positioned lookup of a set = the set the scan found there
+        match sec.header(gimli::DebugArangesOffset(starts[si])) {
+            Ok(h2) => ensure!(h2 == h, "c17/aranges/header-at-offset", "set {}: {:?} vs {:?}", si, h2, h),
+            Err(e) => fail!("c17/aranges/header-at-offset", "set {}: {:?}", si, e),
+        }
         ensure_eq!(h.encoding().address_size, *a, "c17/aranges/address-size", "set {}", si);
         ensure_eq!(h.encoding().format == gimli::Format::Dwarf64, *format64, "c17/aranges/format", "set {}", si);
         ensure_eq!(h.debug_info_offset().0 as u64, *info_off, "c17/aranges/info-offset", "set {}", si);
         let tomb = mask(*a) - 1;
         let want_raw: Vec<(u64, u64)> = tuples.iter().copied().filter(|t| *t != (0, 0)).collect();
         let want: Vec<(u64, u64, u64)> = want_raw.iter().filter(|t| t.0 < tomb).map(|t| (t.0, t.1, t.0 + t.1)).collect();
+        crate::std_iter_agrees!(h.entries(), |e: &gimli::ArangeEntry| format!("{:#x}+{:#x}", e.address(), e.length()), "c17/aranges/entries-std-iterator");
         let mut got = Vec::new();
         let mut it = h.entries();
         loop {
@@ -482,6 +492,110 @@ fn check_tables(ch: &mut Choices, cx: &mut Ctx) -> R {
             ensure_eq!(got.map_err(|e| format!("{:?}", e)), Ok(*v), "c17/addr/get", "index {} size {}", i, a);
         }
         ensure!(sec.get_address(a, gimli::DebugAddrBase(pad), gimli::DebugAddrIndex(n)).is_err(), "c17/addr/past-end", "");
+    }
+    // a .debug_addr section made of several sets with their DWARF 5 headers: the scan reports every set where it is,
+    // and the indexed lookup from a set's base (what DW_AT_addr_base holds) returns the scanned entries
+    {
+        let mut w = W::new(big);
+        let nsets = 1 + ch.below(3);
+        let mut model: Vec<(usize, bool, u8, u64, Vec<u64>)> = Vec::new();
+        for _ in 0..nsets {
+            let format64 = ch.chance(90);
+            let a = ch.pick(&[8u8, 4, 2, 1, 8, 4]);
+            let k = ch.below(6);
+            let vals: Vec<u64> = (0..k).map(|_| ch.biased(8 * a as u32)).collect();
+            let start = w.len();
+            let tok = w.begin_length(format64);
+            w.u16(5).u8(a).u8(0);
+            for v in &vals {
+                w.uint(*v, a);
+            }
+            w.end_length(tok);
+            let unit_length = (w.len() - start - if format64 { 12 } else { 4 }) as u64;
+            model.push((start, format64, a, unit_length, vals));
+        }
+        let sec = gimli::DebugAddr::from(EndianSlice::new(&w.buf, endian));
+        crate::std_iter_agrees!(sec.headers(), |h: &gimli::AddrHeader<EndianSlice<RunTimeEndian>>| format!("{:?}", h.offset()), "c17/addr/sets/headers-std-iterator");
+        let mut hs = sec.headers();
+        for (si, (start, format64, a, unit_length, vals)) in model.iter().enumerate() {
+            let h = match hs.next() {
+                Ok(Some(h)) => h,
+                other => fail!("c17/addr/sets/header", "set {}: {:?}", si, other.map(|o| o.is_some())),
+            };
+            ensure_eq!(h.offset().0, *start, "c17/addr/sets/offset", "set {} of {:?}", si, model.iter().map(|m| (m.0, m.1, m.2, m.4.len())).collect::<Vec<_>>());
+            ensure_eq!(h.length() as u64, *unit_length, "c17/addr/sets/length", "set {}", si);
+            ensure_eq!((h.encoding().format == gimli::Format::Dwarf64, h.encoding().address_size, h.encoding().version), (*format64, *a, 5), "c17/addr/sets/encoding", "set {}", si);
+            crate::std_iter_agrees!(h.entries(), |v: &u64| format!("{:#x}", v), "c17/addr/sets/entries-std-iterator");
+            let mut got = Vec::new();
+            let mut it = h.entries();
+            loop {
+                match it.next() {
+                    Ok(Some(v)) => got.push(v),
+                    Ok(None) => break,
+                    Err(e) => fail!("c17/addr/sets/entries-error", "set {}: {:?}", si, e),
+                }
+            }
+            ensure_eq!(&got, vals, "c17/addr/sets/entries", "set {}", si);
+            let base = h.offset().0 + if *format64 { 16 } else { 8 };
+            for (i, v) in vals.iter().enumerate() {
+                ensure_eq!(sec.get_address(*a, gimli::DebugAddrBase(base), gimli::DebugAddrIndex(i)).map_err(|e| format!("{:?}", e)), Ok(*v), "c17/addr/sets/indexed-from-scanned-base", "set {} index {}", si, i);
+            }
+        }
+        ensure!(matches!(hs.next(), Ok(None)), "c17/addr/sets/extra", "");
+        if nsets > 1 {
+            cx.label("address table section with several sets");
+        }
+    }
+    // a version 5 split unit carries no DW_AT_str_offsets_base: its indexed strings are found behind the header of
+    // the .debug_str_offsets.dwo table (8 bytes in the 32-bit format, 16 in the 64-bit one)
+    for format64 in [false, true] {
+        let strings: Vec<Vec<u8>> = (0..3 + ch.below(3)).map(|i| format!("s{}_{}", i, ch.below(1000)).into_bytes()).collect();
+        let mut st = W::new(big);
+        let mut offs = Vec::new();
+        for x in &strings {
+            offs.push(st.len() as u64);
+            st.cstr(x);
+        }
+        let mut so = W::new(big);
+        let tok = so.begin_length(format64);
+        so.u16(5).u16(0);
+        for o in &offs {
+            so.word(*o, format64);
+        }
+        so.end_length(tok);
+        let pick = ch.below(strings.len());
+        let mut ab = W::new(big);
+        ab.uleb(1).uleb(0x11).u8(0).uleb(0x03).uleb(0x25).uleb(0).uleb(0).u8(0);
+        let mut info = W::new(big);
+        let tok = info.begin_length(format64);
+        info.u16(5).u8(0x01).u8(8).word(0, format64);
+        info.uleb(1).u8(pick as u8);
+        info.end_length(tok);
+        let empty: Vec<u8> = Vec::new();
+        let load = |id: SectionId| -> Result<EndianSlice<RunTimeEndian>, gimli::Error> {
+            Ok(EndianSlice::new(
+                match id {
+                    SectionId::DebugInfo => &info.buf,
+                    SectionId::DebugAbbrev => &ab.buf,
+                    SectionId::DebugStr => &st.buf,
+                    SectionId::DebugStrOffsets => &so.buf,
+                    _ => &empty,
+                },
+                endian,
+            ))
+        };
+        let mut dwarf = gimli::Dwarf::load(load).map_err(|e| Failure { sig: "c17/dwo-strings/load".into(), detail: format!("{e:?}") })?;
+        dwarf.file_type = gimli::DwarfFileType::Dwo;
+        let header = dwarf.units().next().map_err(|e| Failure { sig: "c17/dwo-strings/units".into(), detail: format!("{e:?}") })?.ok_or_else(|| Failure { sig: "c17/dwo-strings/no-unit".into(), detail: String::new() })?;
+        let enc = header.encoding();
+        let unit = dwarf.unit(header).map_err(|e| Failure { sig: "c17/dwo-strings/unit".into(), detail: format!("{:?} (format64 {})", e, format64) })?;
+        ensure_eq!(unit.name.map(|n| n.slice().to_vec()), Some(strings[pick].clone()), "c17/dwo-strings/unit-name", "index {} format64 {}", pick, format64);
+        for (i, want) in strings.iter().enumerate() {
+            let got = dwarf.attr_string(&unit, gimli::AttributeValue::DebugStrOffsetsIndex(gimli::DebugStrOffsetsIndex(i)));
+            ensure_eq!(got.map(|r| r.slice().to_vec()).map_err(|e| format!("{:?}", e)), Ok(want.clone()), "c17/dwo-strings/attr_string", "index {} format64 {}", i, format64);
+        }
+        ensure_eq!(gimli::DebugStrOffsetsBase::<usize>::default_for_encoding_and_file(enc, gimli::DwarfFileType::Dwo).0, if format64 { 16 } else { 8 }, "c17/dwo-strings/default-base", "format64 {}", format64);
+        ensure_eq!(gimli::DebugStrOffsetsBase::<usize>::default_for_encoding_and_file(enc, gimli::DwarfFileType::Main).0, 0, "c17/dwo-strings/default-base-main");
     }
     cx.nt();
     Ok(())
@@ -826,6 +940,18 @@ fn check_names(ch: &mut Choices, cx: &mut Ctx) -> R {
         ensure_eq!(index.type_unit(i as u32).map(tu_str).map_err(|e| format!("{:?}", e)), Ok(tu_model(i)), "c17/names/type_unit", "{}", i);
     }
     ensure_eq!(index.type_unit_count(), (nltu + nftu) as u32, "c17/names/type_unit_count");
+    ensure_eq!((index.local_type_unit_count(), index.foreign_type_unit_count(), index.name_count()), (nltu as u32, nftu as u32, names.len() as u32), "c17/names/index-counts");
+    // the abbreviation table as parsed: every declaration with its code, tag and (index, form) list, found by code
+    {
+        let tab = index.abbreviations();
+        let got: Vec<(u64, u16, Vec<(u16, u16)>)> = tab.abbreviations().iter().map(|a| (a.code(), a.tag().0, a.attributes().iter().map(|x| (x.name().0, x.form().0)).collect())).collect();
+        let want: Vec<(u64, u16, Vec<(u16, u16)>)> = abbrevs.iter().map(|a| (a.code, a.tag, a.attrs.clone())).collect();
+        ensure_eq!(got, want, "c17/names/abbreviation-table");
+        for a in &abbrevs {
+            ensure_eq!(tab.get(a.code).map(|x| (x.code(), x.tag().0)), Some((a.code, a.tag)), "c17/names/abbreviation-get", "code {}", a.code);
+        }
+        ensure!(tab.get(0x7777).is_none(), "c17/names/abbreviation-get-phantom", "");
+    }
     ensure_eq!(index.has_hash_table(), bucket_count > 0, "c17/names/has_hash_table");
     // the name table
     let listed: Vec<u32> = index.names().map(|n| n.0).collect();
@@ -1059,7 +1185,23 @@ fn check_wiring(cx: &mut Ctx) -> R {
         let mut owned: gimli::Dwarf<Vec<u8>> = gimli::Dwarf::load(|id: SectionId| -> Result<Vec<u8>, gimli::Error> { Ok(bufs.get(id.name()).cloned().unwrap_or_default()) }).unwrap();
         owned.load_sup(|id: SectionId| -> Result<Vec<u8>, gimli::Error> { Ok(sup_bufs0.get(id.name()).cloned().unwrap_or_default()) }).unwrap();
         owned.file_type = gimli::DwarfFileType::Dwo;
-        let b = owned.borrow(|v| EndianSlice::new(&v[..], endian));
+        // (the closure notes every buffer it is handed: each section's buffer exactly once, the location list
+        // sections among them, and the borrowed file attributes each buffer to the section whose data it holds)
+        let seen: std::cell::RefCell<Vec<&[u8]>> = std::cell::RefCell::new(Vec::new());
+        let b = owned.borrow(|v| {
+            seen.borrow_mut().push(&v[..]);
+            EndianSlice::new(&v[..], endian)
+        });
+        {
+            let seen = seen.borrow();
+            for sid in [SectionId::DebugAbbrev, SectionId::DebugAddr, SectionId::DebugAranges, SectionId::DebugInfo, SectionId::DebugLine, SectionId::DebugLineStr, SectionId::DebugLoc, SectionId::DebugLocLists, SectionId::DebugRanges, SectionId::DebugRngLists, SectionId::DebugStr, SectionId::DebugStrOffsets, SectionId::DebugTypes] {
+                let want = &bufs[sid.name()][..];
+                let n = seen.iter().filter(|x| **x == want).count();
+                ensure_eq!(n, 1, "c17/wiring/dwarf-borrow/buffers-handed-out", "{:?}: its buffer was passed to the borrow function {} times", sid, n);
+                let slice = seen.iter().find(|x| **x == want).unwrap();
+                ensure_eq!(b.lookup_offset_id(EndianSlice::new(slice, endian).offset_id()), Some((false, sid, 0usize)), "c17/wiring/dwarf-borrow/lookup_offset_id", "{:?}", sid);
+            }
+        }
         // offset ids are addresses: compare contents through the fields, and the lists through fresh lookups
         let e = |sid: SectionId| -> &[u8] { &bufs[sid.name()] };
         for (got, sid) in [
